@@ -4,6 +4,7 @@
 // Nothing here is ever executed or linked.
 #include <algorithm>
 #include <atomic>
+#include <cerrno>
 #include <chrono>
 #include <cstdlib>
 #include <cstring>
@@ -224,4 +225,40 @@ inline std::size_t folds_wide(const std::vector<std::size_t>& v)
 {
     return std::accumulate(v.begin(), v.end(), std::size_t{ 0 }, [](std::size_t s, std::size_t x) { return s * 31 + x; });
 }
+// ---- round 12 scope-wide rules: positive / negative examples (the rules expect zero hits on /repo, these keep their recognisers honest)
+// S1: a namespace-scope object with dynamic initialisation read by a function / a constant-initialised one
+static const std::string dynamic_table_entry("yes");
+constexpr int constant_table_entry = 3;
+inline bool reads_dynamic_namespace_state(const std::string& w)
+{
+    return w == dynamic_table_entry;
+}
+inline bool reads_constant_namespace_state(int w)
+{
+    return w == constant_table_entry;
+}
+// S2: errno read without / with a clearing assignment in front
+inline bool errno_stale(const char* text)
+{
+    long v = std::strtol(text, nullptr, 10);
+    return errno == ERANGE || v == 0;
+}
+inline bool errno_cleared(const char* text)
+{
+    errno = 0;
+    long v = std::strtol(text, nullptr, 10);
+    return errno == ERANGE || v == 0;
+}
+// S7: a plain char widened into std::size_t / through unsigned char first
+inline std::size_t widens_plain_char(const std::string& s)
+{
+    const std::size_t letter = s.front();
+    return letter;
+}
+inline std::size_t widens_unsigned_char(const std::string& s)
+{
+    const std::size_t letter = static_cast<unsigned char>(s.front());
+    return letter;
+}
 } // namespace vfix
+
